@@ -35,7 +35,7 @@ def run(chk):
         tx, names = bench.simple_ties(core.REPO)
         texts.append((('Rastrigin/XSquared ties', 0), tx, names))
         for fam in ('Rastrigin', 'XSquared'):
-            for n in (1, 2, 3, 5):
+            for n in (1, 2, 3, 5, 8, 16):
                 ins = PT.instance(core.REPO, fam, dim=n)
                 insts.append((fam, {'dim': n}, ins['expr'], ins['lo'], ins['hi']))
         gen_ok = True
@@ -114,7 +114,7 @@ def other_families(chk, rng, thorough):
     import numpy as np
     from scipy.optimize import minimize
     found = 0
-    plans = [('Shekel4', {'k': k}) for k in (1, 2, 3)] + [('Rastrigin', {'dim': n}) for n in (1, 2, 4)] + [('XSquared', {'dim': n}) for n in (1, 3, 5)]
+    plans = [('Shekel4', {'k': k}) for k in (1, 2, 3)] + [('Rastrigin', {'dim': n}) for n in (1, 2, 4, 8, 12, 20)] + [('XSquared', {'dim': n}) for n in (1, 3, 5, 9, 24)]
     plans += [('Grishagin', {'k': k}) for k in (range(1, 101) if thorough else rng.sample(range(2, 101), 5))]
     plans += [('GKLS', {'dim': d, 'k': k}) for d in (2, 3, 4, 5) for k in (range(1, 101) if thorough else rng.sample(range(1, 101), 2))]
     # every one of the 400 GKLS instances: the declared optimum lies in the box and has the declared value
@@ -131,6 +131,23 @@ def other_families(chk, rng, thorough):
                                        {'kind': 'instance', 'family': 'GKLS', 'args': {'dim': d, 'k': k}})
             if found > 3:
                 return found
+    # several instances alive at once (built first, validated afterwards): each is still the function its declared optimum describes
+    live = [('GKLS', dict(dim=d, k=k)) for d, k in ((3, rng.randint(1, 100)), (2, rng.randint(1, 100)), (3, rng.randint(1, 100)), (5, rng.randint(1, 100)), (2, rng.randint(1, 100)))]
+    live += [('Grishagin', dict(k=k)) for k in rng.sample(range(1, 101), 3)] + [('Hill', dict(k=7)), ('Shekel', dict(k=11)), ('Hill', dict(k=8))]
+    objs = [(fam, kw, B.problem(fam, **kw)) for fam, kw in live]
+    for fam, kw, pb in objs:
+        ko = pb.knownOptimum[0]
+        p = [float(t) for t in ko.point.floatVariables]; v = float(ko.functionValues[0].value)
+        chk.evaluations += 1
+        try:
+            fp = B.calc(pb, p)
+        except Exception as e:  # noqa
+            fp = None
+            found += chk.violation('optimum', '%s%r raised %s when evaluated after other instances had been constructed' % (fam, kw, type(e).__name__), {'kind': 'instance', 'family': fam, 'args': kw, 'live': [list(map(str, x[:2])) for x in live]})
+            continue
+        if abs(fp - v) > 1e-4:
+            found += chk.violation('optimum', '%s%r, evaluated after %d other instances had been constructed: objective at the declared optimum point is %r, declared value %r' % (fam, kw, len(live) - 1, fp, v),
+                                   {'kind': 'instance', 'family': fam, 'args': kw, 'live': [list(map(str, x[:2])) for x in live]})
     for fam, kw in plans:
         if fam == 'Grishagin':      # an instance is the same function however often and in whatever order it is constructed
             B.problem(fam, k=kw['k'] - 1 if kw['k'] > 1 else 2)
